@@ -250,6 +250,21 @@ def compare_feature_forms(ctx: Ctx, f: str, cfg, paths, T: int, H: int, dtype):
         if not bool(((one - ref).abs() <= tol).all()):
             return (f"feature:{f}:step-vs-all", f"{f}.get({i}) differs from column {i} of {f}.get(None)",
                     {"T": T, "step": i, "single": one.flatten()[:4].tolist(), "column": ref.flatten()[:4].tolist()})
+    # a NEGATIVE strike (nothing forbids it; moneyness is then decreasing in the price): the running maxima of both forms are
+    # maxima of the MONEYNESS, column by column
+    if f in ("moneyness", "max_moneyness", "log_moneyness", "max_log_moneyness") and T >= 2:
+        from pfhedge.instruments import EuropeanOption
+        d_base, _, _ = build_market(cfg, paths, K, DT, dtype)
+        d_neg = EuropeanOption(d_base.ul(), call=cfg["call"], strike=-K, maturity=(T - 1) * DT)
+        fn_ = get_feature(make_feature(f, H, dtype)).of(d_neg)
+        full_n = fn_.get(None)
+        for i in range(T):
+            ctx.count(n=1)
+            one = get_feature(make_feature(f, H, dtype)).of(d_neg).get(i)
+            ref = full_n[:, [i]]
+            if one.shape != ref.shape or not bool(((one == ref) | (one.isnan() & ref.isnan())).all()):
+                return (f"feature:{f}:negative-strike-step-vs-all", f"{f}.get({i}) differs from column {i} of {f}.get(None) for a derivative with a negative strike",
+                        {"T": T, "step": i, "single": one.flatten()[:4].tolist(), "column": ref.flatten()[:4].tolist()})
     # a SHORT-dated derivative on an underlier that was simulated for longer (e.g. together with a longer-dated one): both
     # forms index the same simulated series
     if T >= 3:
